@@ -60,12 +60,13 @@ func c17Call(f func()) bool {
 // ---------------------------------------------------------------- labels
 
 type c17Label struct {
-	Op string // uh dl sc cb cs ca ib cr en
+	Op string // uh dl sc cb cs ca ib cr en qp qr
 	K  int    // client index (sc cs ca ib cr en)
 	M  int    // message tag (ib), also its packet identifier
 	H  int    // handler tag (uh dl); 0 = nil
 	Q  byte   // QoS of the inbound message (ib)
 	Re bool   // ib: the handler that is called for this message calls Handle(H) before it returns
+	Dup bool   // ib / qp: the PUBLISH carries DUP=1 (a broker's retransmission for a resumed session)
 	Via string // uh (loop family): "" / "the returned ReconnectClient" / "the application's own RetryClient"
 }
 
@@ -75,6 +76,14 @@ func (l c17Label) coq(reentered bool) string {
 		return fmt.Sprintf("ih %d %d %d", l.K, l.M, l.H)
 	}
 	switch l.Op {
+	case "qp":
+		d := 0
+		if l.Dup {
+			d = 1
+		}
+		return fmt.Sprintf("qp %d %d %d", l.K, l.M, d)
+	case "qr":
+		return fmt.Sprintf("qr %d %d", l.K, l.M)
 	case "uh", "dl":
 		return fmt.Sprintf("%s %d", l.Op, l.H)
 	case "cb":
@@ -111,7 +120,17 @@ func (l c17Label) desc() string {
 		return fmt.Sprintf("BaseClient.Connect(#%d):CONNECT-written", l.K)
 	case "ca":
 		return fmt.Sprintf("CONNACK(#%d)", l.K)
+	case "qp":
+		if l.Dup {
+			return fmt.Sprintf("PUBLISH(#%d,m%d,q2,DUP) alone: stored, PUBREC", l.K, l.M)
+		}
+		return fmt.Sprintf("PUBLISH(#%d,m%d,q2) alone: stored, PUBREC", l.K, l.M)
+	case "qr":
+		return fmt.Sprintf("PUBREL(#%d,m%d)", l.K, l.M)
 	case "ib":
+		if l.Dup {
+			return fmt.Sprintf("PUBLISH(#%d,m%d,q%d,DUP)", l.K, l.M, l.Q)
+		}
 		if l.Re {
 			return fmt.Sprintf("PUBLISH(#%d,m%d,q%d)[the handler called for it calls Handle(%s)]", l.K, l.M, l.Q, h(l.H))
 		}
@@ -224,7 +243,7 @@ type c17Conn struct {
 	cli *mqtt.BaseClient
 
 	mu   sync.Mutex
-	acks map[uint16]chan struct{}
+	acks map[uint32]chan struct{} // packet type << 16 | packet identifier
 
 	optArrive, optRelease       chan struct{} // ConnectOption closure: inside BaseClient.Connect, before the reader starts
 	connectWritten              chan struct{} // CONNECT reached the broker
@@ -243,7 +262,7 @@ func (c *c17Conn) fetchDone() bool {
 }
 
 func c17NewConn(k int, g *c17Log, dialH int, gateWrite bool) *c17Conn {
-	c := &c17Conn{k: k, acks: map[uint16]chan struct{}{},
+	c := &c17Conn{k: k, acks: map[uint32]chan struct{}{},
 		optArrive: make(chan struct{}), optRelease: make(chan struct{}),
 		connectWritten: make(chan struct{}),
 		activeArrive:   make(chan struct{}), activeRelease: make(chan struct{}),
@@ -261,9 +280,9 @@ func c17NewConn(k int, g *c17Log, dialH int, gateWrite bool) *c17Conn {
 			if c.connGate != nil {
 				c17ParkOn(c.connGate)
 			}
-		case 0x40, 0x70:
+		case 0x40, 0x50, 0x70:
 			if len(pkt) >= 4 {
-				c.ack(uint16(pkt[2])<<8 | uint16(pkt[3]))
+				c.ack(uint32(pkt[0]&0xF0)<<16 | uint32(pkt[2])<<8 | uint32(pkt[3]))
 			}
 		}
 		return nil
@@ -292,7 +311,7 @@ func (c *c17Conn) optGate() {
 	})
 }
 
-func (c *c17Conn) ack(id uint16) {
+func (c *c17Conn) ack(id uint32) {
 	c.mu.Lock()
 	ch := c.acks[id]
 	delete(c.acks, id)
@@ -302,7 +321,7 @@ func (c *c17Conn) ack(id uint16) {
 	}
 }
 
-func (c *c17Conn) expect(id uint16) chan struct{} {
+func (c *c17Conn) expect(id uint32) chan struct{} {
 	ch := make(chan struct{})
 	c.mu.Lock()
 	c.acks[id] = ch
@@ -328,12 +347,21 @@ func (c *c17Conn) sendGroup(connack bool, msgs []c17Label) []bool {
 	}
 	waits := make([]chan struct{}, len(msgs))
 	for i, m := range msgs {
-		b = append(b, encPublish(inMsg{Topic: []byte("t"), ID: uint16(m.M), QoS: m.Q, Payload: c17Payload(m)})...)
-		if m.Q > 0 {
-			waits[i] = c.expect(uint16(m.M))
-		}
-		if m.Q == 2 {
+		switch m.Op {
+		case "qp": // QoS 2 PUBLISH alone; processed when its PUBREC reaches the broker
+			b = append(b, encPublish(inMsg{Topic: []byte("t"), ID: uint16(m.M), QoS: 2, Dup: m.Dup, Payload: c17Payload(m)})...)
+			waits[i] = c.expect(0x50<<16 | uint32(m.M))
+		case "qr": // its PUBREL; witnessed by the acknowledgement of the message behind it (PUBCOMP is not awaited)
 			b = append(b, encID(0x62, uint16(m.M))...)
+		default:
+			b = append(b, encPublish(inMsg{Topic: []byte("t"), ID: uint16(m.M), QoS: m.Q, Dup: m.Dup, Payload: c17Payload(m)})...)
+			if m.Q == 1 {
+				waits[i] = c.expect(0x40<<16 | uint32(m.M))
+			}
+			if m.Q == 2 {
+				waits[i] = c.expect(0x70<<16 | uint32(m.M))
+				b = append(b, encID(0x62, uint16(m.M))...)
+			}
 		}
 	}
 	c.mc.send(b)
@@ -460,14 +488,14 @@ func (b *c17Bare) exec(ls []c17Label) bool {
 				b.problem = fmt.Sprintf("label %d (%s): BaseClient.Done did not return", i, l.desc())
 				return false
 			}
-		case "ca", "ib":
+		case "ca", "ib", "qp", "qr":
 			c := b.conns[l.K]
 			j := i
 			if l.Op == "ca" {
 				j = i + 1
 			}
 			e := j
-			for e < len(ls) && ls[e].Op == "ib" && ls[e].K == l.K {
+			for e < len(ls) && c17IsMsg(ls[e]) && ls[e].K == l.K {
 				e++
 			}
 			done := c.sendGroup(l.Op == "ca", ls[j:e])
@@ -502,6 +530,9 @@ func (b *c17Bare) exec(ls []c17Label) bool {
 	return true
 }
 
+// c17IsMsg: a label that is (part of) an inbound message of the broker
+func c17IsMsg(l c17Label) bool { return l.Op == "ib" || l.Op == "qp" || l.Op == "qr" }
+
 func (b *c17Bare) cleanup() {
 	for _, c := range b.conns {
 		c.releaseAll()
@@ -516,7 +547,7 @@ func c17Obs(ls []c17Label, hands []c17Hand, processed map[int]bool) (coq []strin
 	}
 	var want []int
 	for _, l := range ls {
-		if l.Op != "ib" {
+		if l.Op != "ib" && l.Op != "qr" {
 			continue
 		}
 		hs := by[l.M]
@@ -565,9 +596,12 @@ type c17Gen struct {
 	nextM  int
 	nextH  int
 	labels []c17Label
+	pend   map[int][]int // per client: QoS 2 messages stored, PUBREL not sent yet
 }
 
-func c17NewGen(r *rand.Rand) *c17Gen { return &c17Gen{r: r, cur: -1, nextM: 1, nextH: 1} }
+func c17NewGen(r *rand.Rand) *c17Gen {
+	return &c17Gen{r: r, cur: -1, nextM: 1, nextH: 1, pend: map[int][]int{}}
+}
 
 func (g *c17Gen) add(l c17Label) {
 	switch l.Op {
@@ -586,6 +620,7 @@ func (g *c17Gen) add(l c17Label) {
 		g.ret[l.K] = true
 	case "en":
 		g.phase[l.K] = 4
+		delete(g.pend, l.K) // the subBuffer dies with the connection
 	}
 	g.labels = append(g.labels, l)
 }
@@ -607,6 +642,21 @@ func (g *c17Gen) handle() c17Label {
 func (g *c17Gen) msgs(k, n int) {
 	cnt := 1 + g.r.Intn(n)
 	for i := 0; i < cnt; i++ {
+		// QoS 2 exchanges whose PUBLISH and PUBREL are separate steps (anything may come between them)
+		if p := g.pend[k]; len(p) > 0 && g.r.Intn(3) == 0 {
+			x := g.r.Intn(len(p))
+			g.add(c17Label{Op: "qr", K: k, M: p[x]})
+			g.pend[k] = append(append([]int{}, p[:x]...), p[x+1:]...)
+			g.add(c17Label{Op: "ib", K: k, M: g.nextM, Q: 1})
+			g.nextM++
+			continue
+		}
+		if g.r.Intn(6) == 0 {
+			g.add(c17Label{Op: "qp", K: k, M: g.nextM, Dup: g.r.Intn(3) == 0})
+			g.pend[k] = append(g.pend[k], g.nextM)
+			g.nextM++
+			continue
+		}
 		q := byte(1)
 		switch x := g.r.Intn(10); {
 		case x < 3 && i < cnt-1:
@@ -614,8 +664,8 @@ func (g *c17Gen) msgs(k, n int) {
 		case x < 5:
 			q = 2
 		}
-		l := c17Label{Op: "ib", K: k, M: g.nextM, Q: q}
-		if g.r.Intn(8) == 0 {
+		l := c17Label{Op: "ib", K: k, M: g.nextM, Q: q, Dup: q == 1 && g.r.Intn(8) == 0}
+		if !l.Dup && g.r.Intn(8) == 0 {
 			// the handler that gets this message replaces the handler from inside its callback
 			l.Re, l.H = true, g.handle().H
 		}
@@ -726,22 +776,34 @@ func c17Skeleton(which int) []c17Label {
 		return []c17Label{{Op: "dl"}, op("sc", 0), {Op: "cb"}, op("cs", 0), op("ca", 0), ib(0, 1, 1), re(0, 2, 1, 5), ib(0, 3, 1), op("cr", 0),
 			re(0, 4, 2, 5), ib(0, 5, 1), op("en", 0), {Op: "dl"}, op("sc", 1), {Op: "cb"}, op("cs", 1), op("ca", 1), ib(1, 6, 0), re(1, 7, 1, 6),
 			ib(1, 8, 1), op("cr", 1), re(1, 9, 1, 0), ib(1, 10, 1)}
+	case 3: // QoS 2 exchanges with PUBLISH and PUBREL apart; connection 0 is cut between them; the broker
+		// redelivers behind the next CONNACK (QoS 1 DUP, QoS 2 PUBLISH DUP then PUBREL) in the same send
+		qp := func(k, m int, dup bool) c17Label { return c17Label{Op: "qp", K: k, M: m, Dup: dup} }
+		qr := func(k, m int) c17Label { return c17Label{Op: "qr", K: k, M: m} }
+		return []c17Label{{Op: "dl"}, op("sc", 0), {Op: "cb"}, op("cs", 0), op("ca", 0), ib(0, 1, 1), op("cr", 0), qp(0, 2, false), qr(0, 2), ib(0, 3, 1),
+			qp(0, 4, false), op("en", 0), {Op: "dl"}, op("sc", 1), {Op: "cb"}, op("cs", 1), op("ca", 1), {Op: "ib", K: 1, M: 5, Q: 1, Dup: true}, qp(1, 6, true), qr(1, 6),
+			ib(1, 7, 1), op("cr", 1), qp(1, 8, false), qr(1, 8), ib(1, 9, 1)}
 	default: // SetClient while connection 0 is still read (bare RetryClient only)
 		return []c17Label{{Op: "dl"}, op("sc", 0), {Op: "cb"}, op("cs", 0), op("ca", 0), ib(0, 1, 1), op("cr", 0), {Op: "dl"}, op("sc", 1),
 			ib(0, 2, 1), {Op: "cb"}, ib(0, 3, 1), op("cs", 1), op("ca", 1), ib(1, 4, 1), ib(0, 5, 1), op("cr", 1), op("en", 0), ib(1, 6, 1)}
 	}
 }
 
-// c17Normalise: a QoS 0 message must be followed, in the same send, by a message whose
-// acknowledgement witnesses that the reader got past it; otherwise it is sent with QoS 1.
+// c17Normalise: a QoS 0 message or a lone PUBREL must be followed, in the same send, by a message whose
+// acknowledgement witnesses that the reader got past it: a QoS 0 message that ends its group is sent
+// with QoS 1, a PUBREL that ends its group gets a QoS 1 message behind it.
 func c17Normalise(ls []c17Label) []c17Label {
-	out := append([]c17Label{}, ls...)
-	for i := range out {
-		if out[i].Op == "ib" && out[i].Q == 0 {
-			if i+1 >= len(out) || out[i+1].Op != "ib" || out[i+1].K != out[i].K {
-				out[i].Q = 1
-			}
-
+	var out []c17Label
+	sync := 1000
+	for i, l := range ls {
+		last := i+1 >= len(ls) || !c17IsMsg(ls[i+1]) || ls[i+1].K != l.K
+		if l.Op == "ib" && l.Q == 0 && last {
+			l.Q = 1
+		}
+		out = append(out, l)
+		if l.Op == "qr" && last {
+			sync++
+			out = append(out, c17Label{Op: "ib", K: l.K, M: sync, Q: 1})
 		}
 	}
 	return out
@@ -1095,7 +1157,7 @@ func c17StressRound(newH, spinA, spinB int) (pre, win, post []c17Label, coq, des
 	defer c.releaseAll()
 	c17Close(c.activeRelease) // no gate in ConnState(Active)
 	c.autoAccept = append(append([]byte{}, connackOK...), encPublish(inMsg{Topic: []byte("t"), ID: 1, QoS: 1, Payload: c17Payload(m1)})...)
-	ack1 := c.expect(1)
+	ack1 := c.expect(0x40<<16 | 1)
 	ctx := context.Background()
 	rc.Handle(g.handler(1))
 	rc.SetClient(ctx, c.cli)
@@ -1239,7 +1301,7 @@ func runC17(cfg *runCfg) error {
 	}
 
 	// ---- seq: Handle inserted at every position (and every pair of positions) of two skeletons
-	for which := 0; which < 3; which++ {
+	for which := 0; which < 4; which++ {
 		sk := c17Skeleton(which)
 		for _, first := range []int{1, 0} { // with / without a handler registered before everything
 			base := sk
@@ -1249,7 +1311,7 @@ func runC17(cfg *runCfg) error {
 			for p := 0; p <= len(base); p++ {
 				one := c17Insert(base, p, c17Label{Op: "uh", H: 2})
 				addSeq(one, "enumerated-1")
-				if cfg.tier == "quick" && (first == 0 || (p+which)%2 == 1) {
+				if cfg.tier == "quick" && (first == 0 || (p+which)%2 == 1 || (which >= 2 && p%4 != 0)) {
 					continue
 				}
 				for q := p + 1; q <= len(one); q++ {
@@ -1329,24 +1391,36 @@ func runC17(cfg *runCfg) error {
 				ep.DialH = 91 // the dialer leaves its own handler on the second client: Connect must replace it
 			}
 			ep.Burst = []c17Label{{Op: "ib", K: k, M: mm, Q: 0}, {Op: "ib", K: k, M: mm + 1, Q: 1}}
+			if k == 1 {
+				// the broker's retransmissions for the resumed session, in the same send as the CONNACK:
+				// a QoS 1 PUBLISH with DUP=1 and the QoS 2 PUBLISH that connection 0 never released (DUP=1), then its PUBREL
+				ep.Burst = append(ep.Burst, c17Label{Op: "ib", K: k, M: mm + 6, Q: 1, Dup: true},
+					c17Label{Op: "qp", K: k, M: mm + 7, Dup: true}, c17Label{Op: "qr", K: k, M: mm + 7}, c17Label{Op: "ib", K: k, M: mm + 8, Q: 1})
+			}
 			ep.AtActive = next(4 + 5*k)
-			ep.Later = [][]c17Label{{{Op: "ib", K: k, M: mm + 2, Q: 1}}}
+			// after Connect: a message; a QoS 2 PUBLISH alone; the "after Connect" Handle call INSIDE that
+			// exchange; its PUBREL and a further message
+			ep.Later = [][]c17Label{{{Op: "ib", K: k, M: mm + 2, Q: 1}}, {{Op: "qp", K: k, M: mm + 4}}}
 			if l := next(5 + 5*k); l != nil {
 				ep.Later = append(ep.Later, []c17Label{{Op: "uh", H: l[0]}})
 			}
-			ep.Later = append(ep.Later, []c17Label{{Op: "ib", K: k, M: mm + 3, Q: byte(1 + k)}})
+			tail := []c17Label{{Op: "qr", K: k, M: mm + 4}, {Op: "ib", K: k, M: mm + 3, Q: byte(1 + k)}}
 			if k == 0 && (mask/3)%2 == 0 {
 				// the handler that receives the last message of connection 0 registers h20 from inside its
 				// callback: every message of connection 1 before a newer Handle call must go to h20
-				last := &ep.Later[len(ep.Later)-1][0]
-				last.Re, last.H = true, 20
+				tail[1].Re, tail[1].H = true, 20
+			}
+			ep.Later = append(ep.Later, tail)
+			if k == 0 {
+				// ... and a QoS 2 PUBLISH whose PUBREL connection 0 never gets (cut): redelivered on connection 1
+				ep.Later = append(ep.Later, []c17Label{{Op: "qp", K: k, M: mm + 5}})
 			}
 			if k == 1 && (mask/3)%4 == 1 {
 				// ... and the one that receives the QoS 1 message right behind the second CONNACK registers h21
 				// (the reconnect loop is still inside Connect)
 				ep.Burst[1].Re, ep.Burst[1].H = true, 21
 			}
-			mm += 4
+			mm += 9
 			eps = append(eps, ep)
 		}
 		addLoop(pre, eps, (mask/3)%3, "enumerated")
@@ -1525,7 +1599,7 @@ func runC17(cfg *runCfg) error {
 	m.Families["race"] = race.fam
 	m.Evaluations = len(seq.cases) + len(loop.cases) + len(race.cases) + rounds
 	m.DistinctNontrivial = nontrivial
-	m.Rule = "seq: a bare RetryClient executes a schedule of the model label by label (Handle inserted at every position / pair of positions of two skeleton schedules, one of them with SetClient while the older connection is still read; random walks over enabled labels, 12-47 labels, up to 7 clients); loop: a real ReconnectClient (a third each: default RetryClient; the application's own RetryClient passed with WithRetryClient and every Handle call, also those before NewReconnectClient, made through that object; the same with calls alternating between that object and the returned client) with Handle calls at the subsets of the eleven gate positions of two connections and random scenarios of 1-6 connections with refused attempts, bursts behind CONNACK, dialer-set handlers; race: Handle concurrent with 1-3 messages or with a whole reconnect; stress: time-bounded rounds of Handle concurrent with an ungated RetryClient.Connect (spin offsets, Stats() contention), a message sent after both returned, rounds aggregated by outcome before the Coq evaluation. Messages whose handler calls Handle from inside the callback (new handler, same handler, nil) in seq (third skeleton, 1 in 8 random messages) and loop (enumerated: last message of connection 0, QoS 1 message right behind the second CONNACK). Every CONNACK is followed in the same send by the burst; QoS 0/1/2. Non-trivial = distinct forced schedule with a Handle call, two or more connected connections and a message on a later connection."
+	m.Rule = "seq: a bare RetryClient executes a schedule of the model label by label (Handle inserted at every position / pair of positions of four skeleton schedules: two consecutive connections; SetClient while the older connection is still read; handlers calling Handle from their callback; QoS 2 exchanges with PUBLISH and PUBREL sent apart, a cut between them and the broker's DUP retransmissions (QoS 1, QoS 2 PUBLISH then PUBREL) in the same send as the next CONNACK; random walks over enabled labels, 12-47 labels, up to 7 clients); loop: a real ReconnectClient (a third each: default RetryClient; the application's own RetryClient passed with WithRetryClient and every Handle call, also those before NewReconnectClient, made through that object; the same with calls alternating between that object and the returned client) with Handle calls at the subsets of the eleven gate positions of two connections and random scenarios of 1-6 connections with refused attempts, bursts behind CONNACK, dialer-set handlers; race: Handle concurrent with 1-3 messages or with a whole reconnect; stress: time-bounded rounds of Handle concurrent with an ungated RetryClient.Connect (spin offsets, Stats() contention), a message sent after both returned, rounds aggregated by outcome before the Coq evaluation. Messages whose handler calls Handle from inside the callback (new handler, same handler, nil) in seq (third skeleton, 1 in 8 random messages) and loop (enumerated: last message of connection 0, QoS 1 message right behind the second CONNACK). Every CONNACK is followed in the same send by the burst; QoS 0/1/2. Non-trivial = distinct forced schedule with a Handle call, two or more connected connections and a message on a later connection."
 	m.Distribution["counts"] = stats
 	m.Distribution["seq_cases"] = len(seq.cases)
 	m.Distribution["loop_cases"] = len(loop.cases)
